@@ -12,6 +12,9 @@
 //!                     random order too (parameters are not the lowest local ids)
 //!   7 positional closures  items inserted in a random order with `block_at` / `loop_at` / `if_else_at` and the
 //!                     named `*_at` instruction methods; the function gets a name through the builder
+//!   8 closures reaching out   as 5, but an instruction that directly precedes a block / loop / if-else is
+//!                     appended to the enclosing sequence from inside that construct's closure (the closure
+//!                     reaches the whole builder through deref), i.e. before the construct itself is attached
 
 use crate::util::guarded;
 use std::collections::HashMap;
@@ -231,8 +234,20 @@ fn build_pre(fb: &mut FunctionBuilder, seq: InstrSeqId, nodes: &[TNode], env: &E
 }
 
 /// Order 5: nested closures and the named builder methods.
-fn build_closures(b: &mut InstrSeqBuilder, nodes: &[TNode], env: &Env, labels: &mut HashMap<usize, InstrSeqId>) {
-    for n in nodes {
+fn build_closures(b: &mut InstrSeqBuilder, nodes: &[TNode], env: &Env, labels: &mut HashMap<usize, InstrSeqId>, reach_out: bool) {
+    let parent = b.id();
+    let mut deferred: Option<Instr> = None;
+    for (ni, n) in nodes.iter().enumerate() {
+        // order 8: hold back an instruction that directly precedes a nested construct
+        if reach_out && deferred.is_none() {
+            if let (TNode::Op(op), Some(next)) = (n, nodes.get(ni + 1)) {
+                if !matches!(next, TNode::Op(_)) {
+                    deferred = Some(to_instr(op, env, labels));
+                    continue;
+                }
+            }
+        }
+        let held = deferred.take();
         match n {
             TNode::Op(op) => {
                 match op {
@@ -265,7 +280,10 @@ fn build_closures(b: &mut InstrSeqBuilder, nodes: &[TNode], env: &Env, labels: &
                 b.block(env.seq_tys[id], |inner| {
                     let labels = unsafe { &mut *lab };
                     labels.insert(*id, inner.id());
-                    build_closures(inner, body, env, labels);
+                    if let Some(h) = held {
+                        inner.instr_seq(parent).instr(h);
+                    }
+                    build_closures(inner, body, env, labels, reach_out);
                 });
             }
             TNode::Loop { id, body, .. } => {
@@ -273,7 +291,10 @@ fn build_closures(b: &mut InstrSeqBuilder, nodes: &[TNode], env: &Env, labels: &
                 b.loop_(env.seq_tys[id], |inner| {
                     let labels = unsafe { &mut *lab };
                     labels.insert(*id, inner.id());
-                    build_closures(inner, body, env, labels);
+                    if let Some(h) = held {
+                        inner.instr_seq(parent).instr(h);
+                    }
+                    build_closures(inner, body, env, labels, reach_out);
                 });
             }
             TNode::If { id, then_, else_, .. } => {
@@ -283,12 +304,15 @@ fn build_closures(b: &mut InstrSeqBuilder, nodes: &[TNode], env: &Env, labels: &
                     |inner| {
                         let labels = unsafe { &mut *lab };
                         labels.insert(*id, inner.id());
-                        build_closures(inner, then_, env, labels);
+                        if let Some(h) = held {
+                            inner.instr_seq(parent).instr(h);
+                        }
+                        build_closures(inner, then_, env, labels, reach_out);
                     },
                     |inner| {
                         let labels = unsafe { &mut *lab };
                         labels.insert(*id, inner.id());
-                        build_closures(inner, else_, env, labels);
+                        build_closures(inner, else_, env, labels, reach_out);
                     },
                 );
             }
@@ -436,9 +460,9 @@ fn build_module(t: &TFunc, order: u32, seed: u64) -> Vec<u8> {
             pre.insert(*id, (a, b));
         }
         build_pre(&mut fb, body_id, &t.body, &env, &mut labels, &pre);
-    } else if order == 5 {
+    } else if order == 5 || order == 8 {
         let mut b = fb.func_body();
-        build_closures(&mut b, &t.body, &env, &mut labels);
+        build_closures(&mut b, &t.body, &env, &mut labels, order == 8);
     } else if order == 7 {
         fb.name("wv_built".to_string());
         let mut b = fb.func_body();
@@ -463,7 +487,7 @@ pub fn run(input: &[u8], rec: &mut Rec) {
     };
     let t = tree::tree_for(seed, index);
     rec.push_n("nodes", tree::count_nodes(&t.body) as u64);
-    for order in 1..=7u32 {
+    for order in 1..=8u32 {
         match guarded(|| build_module(&t, order, seed ^ index)) {
             Ok(out) => rec.push_b(&format!("out.{}", order), &out),
             Err(p) => rec.push_s(&format!("panic.{}", order), &p),
